@@ -292,10 +292,10 @@ struct ReplyWorld : World {
 		for (int i = 0; i < nops; ++i) {
 			Op op; unsigned k = (unsigned) r.below(16);
 			op.kind = k < 4 ? OP_REQ : k < 7 ? OP_DELIVER : k < 11 ? OP_SERVE : k < 13 ? OP_FLUSH : k < 15 ? OP_DREPLY2 : OP_SYNC;
-			if (syncm && (k == 10 || k == 14)) op.kind = OP_SYNC;
-			if (op.kind == OP_SYNC) op.c = r.below(20000);     // the requester takes its replies mostly through sync
+			if (syncm && (k == 10 || k == 14)) op.kind = OP_SYNC;     // the requester takes its replies mostly through sync
 			// a: random bits, b: side | behaviour << 8 | await << 16, c: size / count
 			op.a = (int64_t) r.next(); op.b = r.below(2) | (r.below(7) << 8) | ((r.chance(1, 6) ? 0 : 1) << 16); op.c = r.chance(1, 3) ? 1 : r.chance(1, 2) ? 1000000 : r.range(1, 40);
+			if (op.kind == OP_SYNC) op.c = r.below(20000);
 			if (iof && op.kind == OP_FLUSH && r.chance(1, 2)) { op.fault = r.chance(1, 2) ? FL_SHORT : FL_EAGAIN; op.fa = r.range(1, 5); }
 			if (af && (op.kind == OP_SERVE || op.kind == OP_REQ || op.kind == OP_DREPLY2) && r.chance(1, 4)) { op.fault = FL_ALLOC; op.fa = r.range(1, 5); if (op.kind == OP_SERVE && r.chance(1, 3)) op.fa += 16; }
 			p.ops.push_back(op);
@@ -526,9 +526,9 @@ struct ReplyWorld : World {
 		for (int i = 0; i < nops; ++i) {
 			Op op; unsigned k = (unsigned) r.below(16);
 			op.kind = k < 4 ? OP_REQ : k < 8 ? OP_DELIVER : k < 12 ? OP_SERVE : k < 14 ? OP_DREPLY2 : k < 15 ? OP_SYNC : OP_FLUSH;
-			if (op.kind == OP_SYNC) op.c = r.below(20000);
 			if (k == 15 && r.chance(1, 4)) op.kind = OP_REASSIGN;    // the connection is moved to another socket while answers may still be owed
 			op.a = (int64_t) r.next(); op.b = r.below(2) | (r.below(7) << 8) | ((r.chance(1, 6) ? 0 : 1) << 16); op.c = r.chance(1, 2) ? 0 : r.range(0, 5);
+			if (op.kind == OP_SYNC) op.c = r.below(20000);
 			if (net && op.kind == OP_DELIVER && r.chance(1, 3)) { op.fault = r.chance(1, 2) ? FL_DROP : FL_DUP; }
 			if (net && op.kind == OP_REQ && r.chance(1, 8)) { op.fault = FL_SENDFAIL; }
 			if (af && !op.fault && (op.kind == OP_SERVE || op.kind == OP_REQ || op.kind == OP_DREPLY2) && r.chance(1, 4)) { op.fault = FL_ALLOC; op.fa = r.range(1, 5); if (op.kind == OP_SERVE && r.chance(1, 3)) op.fa += 16; }
